@@ -9,7 +9,7 @@ EXEC = "findutils::xargs::CommandBuilder::<'_>::execute"
 META = {
     "explanation": "R1 replacement API: every initial argument is mapped through str::replace(R, line) (all occurrences, not replacen), the line is extra_args' first element through identity conversions only, "
                    "the replace branch passes the rebuilt initial arguments and nothing else; R2 option-precedence decision table of normalize_options simulated over every combination and order of -n/-L/-I "
-                   "(three optional indices compared only by `>`: a finite set of orderings) and -I => max_args=1, newline delimiter (C05.R2 table); R3 which reader splits the input and whether it keeps empty fields (C05.R1/R2, imported: "once for each non-empty line"); R3 empty input: the line is obtained under a non-emptiness guard and the empty side returns success without running",
+                   "(three optional indices compared only by `>`: a finite set of orderings) and -I => max_args=1, newline delimiter (C05.R2 table); R3 which reader splits the input and whether it keeps empty fields (C05.R1/R2, imported: once for each non-empty line); R3 empty input: the line is obtained under a non-emptiness guard and the empty side returns success without running",
     "decides": "R1 also: the built-in echo appends nothing in -I mode; R2 also: options may be repeated (clap contract C2: args_override_self); which API performs the substitution on which strings, what is appended, which mode wins for every option order, and the empty-input path",
     "does_not_decide": "quoting inside lines (excluded by the statement); clap's index bookkeeping for value-less -i",
 }
